@@ -714,10 +714,33 @@ def cases():
     return gen()
 
 
+def double_rewind_cases(step_k, js):
+    """pause after a save -> resume, pause again during the re-take -> resume -> terminator before the point
+    is re-taken (two rewinds of the same data point, then the run ends)."""
+    from ..engine import corpus
+
+    for name in ("count2", "custom_ck"):
+        n = corpus.n_handles(name)
+        for k in range(8 + (0 if name == "count2" else 1), n, step_k):
+            for j in js:
+                for j2 in js:
+                    for term in ("abort", "stop"):
+                        c = corpus.base_case(name)
+                        c["name"] = name
+                        c["stages"] = [
+                            {"do": "call", "inj": [{"at": k, "do": "pause"}]},
+                            {"do": "resume", "inj": [{"at": j, "do": "pause"}]},
+                            {"do": "resume", "inj": [{"at": j2, "do": term}]},
+                            {"do": "resume"},
+                        ]
+                        yield c
+
+
 def run(ctx):
     names = list(SWEEP)
     step = ctx.pick(4, 1)
     cases_ = list(sweep_cases(names, step=step, offset=ctx.seed % step))
+    cases_ += list(double_rewind_cases(ctx.pick(2, 1), ctx.pick((1, 4, 8, 12), tuple(range(0, 16)))))
     ctx.sweep(cases_, check_case)
     ctx.extra["sweep_cases"] = len(cases_)
     ctx.bound = "pause+resume, 2 suspend variants, pause+stop, pause+abort, suspend+foreign stop at every %scallback boundary of the 4 sweep plans" % ("fourth " if ctx.quick else "")
